@@ -153,14 +153,18 @@ func (s *Scanner) scanString() string {
 	// '"' opening already consumed
 	offs := s.offset - 1
 
+	// end of the literal's content: the closing quote is excluded when there is one
+	end := s.offset
 	for {
 		ch := s.ch
 		if ch == '\n' || ch < 0 {
 			s.error(offs, "string literal not terminated")
+			end = s.offset
 			break
 		}
 		s.next()
 		if ch == '"' {
+			end = s.offset - 1
 			break
 		}
 		if ch == '\\' {
@@ -168,7 +172,7 @@ func (s *Scanner) scanString() string {
 		}
 	}
 
-	return string(s.src[offs+1 : s.offset-1])
+	return string(s.src[offs+1 : end])
 }
 
 // scanEscape parses an escape sequence where rune is the accepted
@@ -245,14 +249,18 @@ func (s *Scanner) scanRawString() string {
 	offs := s.offset - 1
 
 	hasCR := false
+	// end of the literal's content: the closing quote is excluded when there is one
+	end := s.offset
 	for {
 		ch := s.ch
 		if ch < 0 {
 			s.error(offs, "raw string literal not terminated")
+			end = s.offset
 			break
 		}
 		s.next()
 		if ch == '`' {
+			end = s.offset - 1
 			break
 		}
 		if ch == '\r' {
@@ -260,7 +268,7 @@ func (s *Scanner) scanRawString() string {
 		}
 	}
 
-	lit := s.src[offs+1 : s.offset-1]
+	lit := s.src[offs+1 : end]
 	if hasCR {
 		lit = stripCR(lit)
 	}
